@@ -171,6 +171,7 @@ fn main() {
             Some("claims") => probes::probe_claims(),
             Some("builders") => probes::probe_builders(),
             Some("roundtrip") => probes::probe_roundtrip(),
+            Some("messages") => probes::probe_messages(),
             _ => { eprintln!("unknown probe"); 2 }
         },
         _ => { eprintln!("usage: coset-replay finding <id>"); 2 }
